@@ -351,20 +351,26 @@ class ImplTimeout(Exception):
 
 
 def with_timeout(fn, secs: float, *a, **kw):
-    """run fn(*a, **kw) in this process under a SIGALRM watchdog; raises ImplTimeout.
+    """run fn(*a, **kw) in this process under a watchdog; raises ImplTimeout.
     Used around calls into the implementation so that a non-terminating mutant is reported
-    instead of hanging the check."""
+    instead of hanging the check.  Two timers: `secs` of this process's own CPU time (a spinning loop; not
+    affected by how loaded the machine is, so a descheduled process is never mistaken for a hang) and
+    10 x `secs` of wall-clock time (a call blocked without using CPU)."""
     import signal
 
     def handler(signum, frame):
         raise ImplTimeout()
     old = signal.signal(signal.SIGALRM, handler)
-    signal.setitimer(signal.ITIMER_REAL, secs)
+    oldv = signal.signal(signal.SIGVTALRM, handler)
+    signal.setitimer(signal.ITIMER_REAL, secs * 10)
+    signal.setitimer(signal.ITIMER_VIRTUAL, secs)
     try:
         return fn(*a, **kw)
     finally:
+        signal.setitimer(signal.ITIMER_VIRTUAL, 0)
         signal.setitimer(signal.ITIMER_REAL, 0)
         signal.signal(signal.SIGALRM, old)
+        signal.signal(signal.SIGVTALRM, oldv)
 
 
 def hexs(b) -> str:
